@@ -10,7 +10,7 @@ import sys, os, glob
 sys.path.insert(0, os.getcwd())
 import vlib
 ok = True
-for v in ("rel", "asan", "tsan"):
+for v in ("rel", "asan", "tsan", "ndebug"):
     o, t = vlib.build_lib(v)
     print("lib", v, "ok" if o else "FAILED")
     if not o:
@@ -30,7 +30,7 @@ for d in sorted(glob.glob(os.path.join(vlib.VERIF, "ocaml", "*_driver.ml"))):
     o, p, t = vlib.build_model(n)
     print("model", n, "ok" if o else "WARNING: FAILED " + t[-800:])
 import importlib
-for v in ("rel", "asan", "tsan"):
+for v in ("rel", "asan", "tsan", "ndebug"):
     names = []
     for f in sorted(glob.glob(os.path.join(vlib.VERIF, "props", "C*.py"))):
         m = importlib.import_module("props." + os.path.basename(f)[:-3])
